@@ -356,13 +356,15 @@ inductive Item
   | len (p : Bytes)
   | fixed (n : Nat)      -- fixed64 / fixed32: never declared in api.proto, only skippable
 
-/-- one record: field number, content, remaining input. Wire types 3/4 (groups) and field
-    number 0 are rejected. -/
+/-- one record: field number, content, remaining input. Wire types 3/4 (groups), field
+    number 0 and field numbers above the legal maximum 2^29-1 are rejected (protobuf-go:
+    `n < MinValidNumber || n > MaxValidNumber → errDecode`; vtproto computes
+    `int32(wire >> 3)` and so accepts them, truncated — see stream `raw`, class `bigfield`). -/
 def parseField (bs : Bytes) : Option (Nat × Item × Bytes) :=
   match decodeVarint bs with
   | none => none
   | some (t, r) =>
-    if t / 8 = 0 then none
+    if t / 8 = 0 ∨ 536870912 ≤ t / 8 then none
     else if t % 8 = 0 then
       match decodeVarint r with
       | some (x, r') => some (t / 8, .varint x, r')
